@@ -21,7 +21,6 @@
 package c13
 
 import (
-	"bytes"
 	"fmt"
 	"os"
 	"runtime"
@@ -51,16 +50,9 @@ const (
 	retryWatchdogMs = 12000 // attempts 2 and 3 at the same injection point
 )
 
-// Known-finding fingerprints (honoured only while listed open in known_findings.json).
-const (
-	// fpDoubleSync: linuxWriter.writeCombinedFile: `err == nil && sb.cnt >= limit || sb.size >= limit` runs a second
-	// intSync after sb.write already failed (and synced) when the size limit is reached: double close(fd) and
-	// close of the closed `ready` channel => panic "close of closed channel" kills the process.
-	fpDoubleSync = "C13:double-intsync-after-failed-link"
-	// fpBatchLock: linuxWriter.writeCombinedFile returns with batchLock held when newSyncBatch (open O_TMPFILE)
-	// fails: every later combined write and Close block forever.
-	fpBatchLock = "C13:batchlock-held-after-failed-batch-open"
-)
+// Two defects found by this check are fixed in /repo (1dcbd3a: second intSync after a failed link when the batch
+// reached its size limit => panic "close of closed channel"; ad24da7: batchLock left locked when opening a new batch
+// file fails => every later combined write blocks). Both outcomes (process death, reproduced hang) are asserted.
 
 type workload struct {
 	spec fshelper.Spec
@@ -131,7 +123,7 @@ func genSequential(t *rapid.T) *workload {
 	s.CntLim = rapid.SampledFrom([]int{2, 3, 4, 8}).Draw(t, "cntLim")
 	s.Thr = rapid.SampledFrom([]int{1024, 4096}).Draw(t, "thr")
 	// a few hundred bytes: most combined writes cross the size limit (members are 150-400 bytes)
-	s.SizeLim = rapid.SampledFrom([]int{100, 300, 500, 900, 1 << 20}).Draw(t, "sizeLim")
+	s.SizeLim = rapid.SampledFrom([]int{100, 200, 300, 300, 500, 900, 1 << 20}).Draw(t, "sizeLim")
 	s.NoSync = rapid.IntRange(0, 4).Draw(t, "noSync") == 0
 	s.IntervalUs = 300
 	s.WatchdogMs = watchdogMs
@@ -146,7 +138,7 @@ func genSequential(t *rapid.T) *workload {
 	nops := rapid.IntRange(3, 9).Draw(t, "nops")
 	var ops []fshelper.Op
 	for k := 0; k < nops; k++ {
-		switch rapid.SampledFrom([]string{"put", "put", "put", "put", "batch", "batchmap"}).Draw(t, "kind") {
+		switch rapid.SampledFrom([]string{"put", "put", "put", "batch", "batch", "batchmap"}).Draw(t, "kind") {
 		case "put":
 			ops = append(ops, fshelper.Op{Kind: fshelper.OpPut, Objs: []int{rapid.IntRange(0, n-4).Draw(t, "i")}})
 		case "batch":
@@ -287,7 +279,6 @@ func (f fault) String() string {
 type outcome struct {
 	f        fault
 	viol     string // property violation
-	known    string // fingerprint of a recognised known-finding class ("" = none)
 	incon    string // inconclusive (harness) reason
 	labels   []string
 	nontriv  bool
@@ -423,9 +414,6 @@ func evaluateOnce(w *workload, objs []*fsobj.Obj, f fault) (o outcome, hang bool
 	if res.ExitCode == fshelper.ExitWatchdog || res.TimedOut {
 		hang = true
 		hangNote = fmt.Sprintf("exit=%d timedOut=%v%s", res.ExitCode, res.TimedOut, ctx())
-		if isBatchLockHang(res, inj) {
-			o.known = fpBatchLock
-		}
 		return
 	}
 	// ---- (1) process keeps running
@@ -433,9 +421,6 @@ func evaluateOnce(w *workload, objs []*fsobj.Obj, f fault) (o outcome, hang bool
 		if res.ExitCode == fshelper.ExitHarness {
 			o.incon = "helper could not start: " + string(res.Stderr)
 			return
-		}
-		if isDoubleSyncPanic(res, inj) {
-			o.known = fpDoubleSync
 		}
 		o.viol = fmt.Sprintf("the process does not survive the failing call: exit=%d signal=%q finished=%v%s", res.ExitCode, res.Signal, rr.Finished, ctx())
 		return
@@ -535,59 +520,6 @@ func evaluateOnce(w *workload, objs []*fsobj.Obj, f fault) (o outcome, hang bool
 	return
 }
 
-func isDoubleSyncPanic(res *sysinject.Result, inj []int) bool {
-	if !bytes.Contains(res.Stderr, []byte("close of closed channel")) || !bytes.Contains(res.Stderr, []byte("intSync")) {
-		return false
-	}
-	for _, i := range inj {
-		if res.Events[i].Name == "linkat" {
-			return true
-		}
-	}
-	return false
-}
-
-func isBatchLockHang(res *sysinject.Result, inj []int) bool {
-	if !bytes.Contains(res.Stderr, []byte("writeCombinedFile")) && !bytes.Contains(res.Stderr, []byte("linuxWriter).finalize")) {
-		return false
-	}
-	if !bytes.Contains(res.Stderr, []byte("sync.(*Mutex).Lock")) {
-		return false
-	}
-	for _, i := range inj {
-		e := res.Events[i]
-		if e.Name == "openat" && strings.Contains(e.Args, "O_TMPFILE") {
-			return true
-		}
-	}
-	return false
-}
-
-// isBatchOpen reports whether the k-th openat of the main thread in the dry run creates a combined batch file:
-// an O_TMPFILE open whose descriptor is next used by writev.
-func isBatchOpen(dry *sysinject.Result, k int) bool {
-	n := 0
-	for i, e := range dry.Events {
-		if e.Tid != dry.MainTid || e.Name != "openat" {
-			continue
-		}
-		n++
-		if n != k {
-			continue
-		}
-		if !strings.Contains(e.Args, "O_TMPFILE") {
-			return false
-		}
-		for j := i + 1; j < len(dry.Events); j++ {
-			if dry.Events[j].Tid == dry.MainTid && dry.Events[j].Name != "faccessat" {
-				return dry.Events[j].Name == "writev"
-			}
-		}
-		return false
-	}
-	return false
-}
-
 func short(s string, n int) string {
 	if len(s) > n {
 		return s[:n] + "…"
@@ -660,7 +592,7 @@ func countCalls(dry *sysinject.Result) threadCounts {
 	return tc
 }
 
-// report folds outcomes into the recorder and returns the first violation that is not a listed known finding.
+// report folds outcomes into the recorder and returns the first violation.
 func report(rec *ev.Recorder, w *workload, desc string, outs []outcome) (viol *outcome, incon string) {
 	for n := range outs {
 		o := &outs[n]
@@ -681,14 +613,7 @@ func report(rec *ev.Recorder, w *workload, desc string, outs []outcome) (viol *o
 		if rec.WantSample() && o.nontriv {
 			rec.Sample(map[string]any{"workload": short(desc, 700), "injection": o.f.String(), "labels": o.labels})
 		}
-		if o.viol == "" && o.known == "" {
-			continue
-		}
-		if o.known != "" && rec.Known(o.known) {
-			rec.Excluded(1)
-			continue
-		}
-		if viol == nil {
+		if o.viol != "" && viol == nil {
 			viol = o
 		}
 	}
@@ -715,11 +640,7 @@ func runAll(w *workload, objs []*fsobj.Obj, faults []fault) []outcome {
 func finish(t *rapid.T, rec *ev.Recorder, w *workload, desc string, outs []outcome) {
 	viol, incon := report(rec, w, desc, outs)
 	if viol != nil {
-		fp := ""
-		if viol.known != "" {
-			fp = " [class " + viol.known + "]"
-		}
-		t.Fatalf("C13 violated%s: %s", fp, viol.viol)
+		t.Fatalf("C13 violated: %s", viol.viol)
 	}
 	if incon != "" {
 		ev.Inconclusive("%s", incon)
@@ -741,7 +662,6 @@ func TestC13Sequential(t *testing.T) {
 		rot := rapid.IntRange(0, 2).Draw(t, "errnoRotation")
 		var faults []fault
 		var singles []sysinject.Inject
-		batchOpenKept := false
 		for _, sc := range faultSyscalls {
 			ks := map[int]bool{}
 			for k := tc.pre[sc] + 1; k <= tc.total[sc]; k++ {
@@ -758,15 +678,6 @@ func TestC13Sequential(t *testing.T) {
 			for _, k := range kk {
 				if sc == "openat" && k <= tc.pre[sc] {
 					continue
-				}
-				if sc == "openat" && ev.IsOpen("C13", fpBatchLock) && isBatchOpen(dry, k) {
-					// known finding: every failed batch open wedges the writer (3 watchdog runs each);
-					// one representative per workload keeps the KNOWN-FINDING line, the rest is excluded
-					if batchOpenKept {
-						rec.Excluded(1)
-						continue
-					}
-					batchOpenKept = true
 				}
 				in := sysinject.Inject{Syscall: sc, Errno: errnos[(k+rot)%len(errnos)], When: fmt.Sprint(k)}
 				singles = append(singles, in)
@@ -819,12 +730,6 @@ func TestC13Concurrent(t *testing.T) {
 		// ones that fire (measured via the faults-N labels)
 		nWrites := w.spec.NumOps() - len(w.spec.Probes)
 		maxWhen := max(3, 2*nWrites/len(w.spec.Phases[0].Workers)+1)
-		if ev.IsOpen("C13", fpBatchLock) {
-			// known finding: a failed batch open wedges the writer; with concurrent writers nearly every openat
-			// fault would only re-discover it (12 s of watchdog each), so the class is left to the sequential test
-			scs = []string{"writev", "writev", "linkat", "linkat", "linkat", "fdatasync", "close", "mkdirat"}
-			rec.Excluded(1)
-		}
 		for i := 0; i < nf; i++ {
 			mk := func(tag string) sysinject.Inject {
 				sc := rapid.SampledFrom(scs).Draw(t, "syscall"+tag)
